@@ -206,6 +206,23 @@ theorem precedence_all_kinds (fld : Field) (c e f : Option Raw) (d : Option Val)
       | none =>
         cases d <;> simp [effective, argValue, extraDefault, offered, resolve, valid?]
 
+/-- `precedence_all_kinds` and `losing_invalid_ignored` are not vacuous for the kinds added last: a HexInt, a list of
+    DDDI definitions, a list of services each win on the command line against an invalid environment value -/
+example : effective { kind := .hexInt } (some (.atom (.str ['-', '0', 'x', 'f', 'f']))) (some (.atom (.str ['z']))) none (some (.int 1))
+    = .ok .cli (.int (-255)) := by decide +kernel
+example : effective { kind := .tuples 3 } (some (.list [.str ['0', 'x', '1', '0', ':', '1', ':', '2'], .str ['1', ':', '2', ':', '3']]))
+    (some (.atom (.str ['1', ':', '2', ':', '3']))) none none = .ok .cli (.tuples [[16, 1, 2], [1, 2, 3]]) := by decide +kernel
+example : effective { kind := .enums [(['D', 'S', 'C'], 16), (['S', 'A'], 39)] } (some (.list [.str ['S', 'A'], .str ['0', 'x', '1', '0']]))
+    none none (some (.ints [16])) = .ok .cli (.ints [39, 16]) := by decide +kernel
+example : effective { kind := .int } none (some (.atom (.str [' ', '0', '0', '7', '.', '0']))) (some (.atom (.str ['z']))) (some (.int 3))
+    = .ok .env (.int 7) := by decide +kernel
+
+/-- no provider can give a `dict[str, Any]` option a value: the command line hands over a list, the environment a
+    string (the known finding about `gallia script vecu db --properties`) -/
+theorem dict_unprovidable (fld : Field) (h : fld.kind = .dict) (r : Raw) (hr : r ≠ .flag) :
+    provided fld r = .error .wrongShape := by
+  cases r <;> simp_all [provided, parse]
+
 /-- the hypotheses of `invalid_names_source` are satisfiable: `GALLIA_DEPTH=0xzz` with `depth = 5` in the file and a
     default of 4 is refused, naming the environment -/
 example : effective { kind := .autoInt } none (some (.atom (.str ['0', 'x', 'z', 'z']))) (some (.atom (.int 5))) (some (.int 4))
@@ -289,6 +306,76 @@ theorem autoInt_prefixed (p : Char) (b : Nat) (n : Nat)
     · exact toDigits_noWs b hb.1 hb.2 n c hc
 
 example : parseAutoInt ['-', '0', 'x', '1', 'f'] = some (-31) := by decide +kernel
+
+/-- HexInt (`int(x, 16)`) reads a number back from its hexadecimal text, bare or with the `0x` prefix, with or without sign -/
+theorem hexInt_digits (n : Nat) :
+    parseHexInt (Nat.toDigits 16 n) = some (Int.ofNat n) ∧ parseHexInt ('-' :: Nat.toDigits 16 n) = some (-(Int.ofNat n)) ∧
+    parseHexInt ('0' :: 'x' :: Nat.toDigits 16 n) = some (Int.ofNat n) ∧
+    parseHexInt ('-' :: '0' :: 'x' :: Nat.toDigits 16 n) = some (-(Int.ofNat n)) := by
+  have hws := toDigits_noWs 16 (by omega) (by omega) n
+  have h1 := signed_of_mag parseMag16 _ n hws (parseMag16_digits n) (by
+    intro c t e
+    have hc : c ∈ Nat.toDigits 16 n := by rw [e]; simp
+    obtain ⟨d, hd, rfl⟩ := toDigits_mem 16 (by omega) (by omega) n hc
+    exact ⟨(digitChar_facts d hd).2.2.2.1, (digitChar_facts d hd).2.2.2.2⟩)
+  have h2 := signed_of_mag parseMag16 ('0' :: 'x' :: Nat.toDigits 16 n) n (by
+    intro c hc
+    simp only [List.mem_cons] at hc
+    rcases hc with rfl | rfl | hc
+    · decide
+    · decide
+    · exact hws c hc) (parseMag16_prefixed n).1 (by
+    intro c t e
+    injection e with e1 _
+    subst e1
+    decide)
+  exact ⟨h1.1, h1.2.1, h2.1, h2.2.1⟩
+
+example : parseHexInt [' ', '-', '0', 'X', '_', '1', 'f', ' '] = some (-31) := by decide +kernel
+
+/-- a plain `int` field (pydantic's lax mode) reads every integer back from its decimal text -/
+theorem laxInt_decimal (i : Int) : parseLaxInt (showInt i) = some i := by
+  have key : ∀ n, parseLaxInt (Nat.toDigits 10 n) = some (Int.ofNat n) ∧
+      (0 < n → parseLaxInt ('-' :: Nat.toDigits 10 n) = some (-(Int.ofNat n))) := by
+    intro n
+    obtain ⟨hz, hd, hu, hj⟩ := laxSteps_decimal n
+    have hdig := toDigits10_isDigit n
+    have hws : ∀ c ∈ Nat.toDigits 10 n, isWs c = false := fun c hc => (isDigit_not_special c (hdig c hc)).2.2.2.2
+    obtain ⟨c, t, e⟩ : ∃ c t, Nat.toDigits 10 n = c :: t := by
+      cases h : Nat.toDigits 10 n with
+      | nil => exact absurd h Nat.toDigits_ne_nil
+      | cons c t => exact ⟨c, t, rfl⟩
+    have hc := isDigit_not_special c (hdig c (by rw [e]; simp))
+    have hcm : c ≠ '-' := by simpa using hc.2.2.1
+    have hcp : c ≠ '+' := by simpa using hc.2.2.2.1
+    constructor
+    · have hs : strip (Nat.toDigits 10 n) = Nat.toDigits 10 n := strip_noWs _ hws
+      unfold parseLaxInt
+      simp only [hs]
+      rw [e] at hz hd hu hj ⊢
+      have hjs : jsonInt (c :: t) = some (Int.ofNat n) := by
+        unfold jsonInt
+        split
+        · rename_i t' heq
+          injection heq with h1 _
+          exact absurd h1 hcm
+        · simp [hj]
+      simp [hcp, hcm, hz, hd, hu, hjs]
+    · intro _
+      have hs : strip ('-' :: Nat.toDigits 10 n) = '-' :: Nat.toDigits 10 n :=
+        strip_noWs _ (by intro x hx; rcases List.mem_cons.mp hx with rfl | hx; decide; exact hws x hx)
+      unfold parseLaxInt
+      simp only [hs]
+      rw [e] at hz hd hu hj ⊢
+      simp [hcp, hcm, hz, hd, hu, jsonInt, hj]
+  cases i with
+  | ofNat n => exact (key n).1
+  | negSucc n =>
+    have := (key (n + 1)).2 (by omega)
+    simpa [showInt, showNat, Int.negSucc_eq] using this
+
+example : parseLaxInt [' ', '0', '0', '1', '_', '0', '.', '0', '0'] = some 10 := by decide +kernel
+example : parseLaxInt ['1', '.'] = none ∧ parseLaxInt ['0', 'x', '1'] = none ∧ parseLaxInt ['1', '_', '_', '0'] = none := by decide +kernel
 
 /-- HexBytes: the stored hex text (`hexlify`) parses back to the same bytes, any length -/
 theorem hexBytes_roundtrip (b : Bytes) : parse .hexBytes (.atom (.str (hexOf b))) = .ok (.bytes b) := by
@@ -476,7 +563,7 @@ theorem blamedAll_head (k : Kind) (r : Raw) (extra : Option (Source × Raw)) :
     | nil => rfl
     | cons a xs ih =>
       by_cases ha : bad a = true
-      · simp [List.filter_cons, ha]
+      · simp [ha]
       · have ha' : bad a = false := by simpa using ha
         simpa [List.filter_cons, ha'] using ih
   unfold blamedAll reportedAll reported
